@@ -1,6 +1,7 @@
 """Shared rules on the range/search stream machinery (seek + DFS step + bounds): R03.x and R04.x."""
 import itertools
 from paths import explore
+import stdalg
 from sym import fmt, walk, map_children
 from callgraph import CallGraph
 from rules.common import path_calls, arg_loc, arg_locs, ret_kind
@@ -89,6 +90,21 @@ def arg_is_stack(f, x):
     return any(y[0] == 'field' and y[2] == 'stack' for y in walk(x)) or any(y[0] == 'havoc' and y[1] == (1, 'stack') for y in walk(x))
 
 
+def stack_known_empty(f, p, after=-1):
+    """does the path establish that the DFS stack is empty: `stack.is_empty()` true, or `stack.last()/last_mut()/first()` is None"""
+    for d in p.cdecisions():
+        if d[0] <= after:
+            continue
+        e, val = d[2], d[3]
+        if val == 1 and any(is_call(x, '::is_empty') and arg_is_stack(f, x) for x in walk(e)) and (is_call(e, '::is_empty')):
+            return True
+        if val == 0 and e[0] == 'un' and e[1] == 'Not' and is_call(e[2], '::is_empty') and arg_is_stack(f, e[2]):
+            return True
+        if e[0] == 'discr' and val == 0 and (is_call(e[1], '::last_mut') or is_call(e[1], '::last') or is_call(e[1], '::first')) and arg_is_stack(f, e[1]):
+            return True
+    return False
+
+
 def seek_rules(ctx, R41, R42, R34, R36, want_c03=True, want_c04=True, R35s=None):
     lib = ctx.lib
     f = lib.fn(SEEK)
@@ -166,8 +182,21 @@ def seek_rules(ctx, R41, R42, R34, R36, want_c03=True, want_c04=True, R35s=None)
                 tr = fd.get('trans')
                 okt = False
                 why = fmt(tr)[:120]
+                # forms: position(..).unwrap_or(node.len())   |   match position(..) { Some(p) => p, None => node.len() }
+                pos = None
+                shape = False
                 if is_call(tr, 'Option::<T>::unwrap_or') and is_call(tr[2][0], 'Iterator::position') and is_call(tr[2][1], '::len') and is_head(tr[2][1][2][0], {LN}):
                     pos = tr[2][0]
+                    shape = True
+                else:
+                    pd = [d for d in p.cdecisions() if d[2][0] == 'discr' and is_call(d[2][1], 'Iterator::position')]
+                    if pd:
+                        pos = pd[-1][2][1]
+                        if pd[-1][3] == 1:
+                            shape = norm(stdalg.canon_value(tr)) == norm(stdalg.canon_value(('okof', pos)))
+                        else:
+                            shape = is_call(tr, '::len') and is_head(tr[2][0], {LN})
+                if pos is not None and shape:
                     src, clo = pos[2][0], pos[2][1]
                     if is_call(src, '::transitions') and is_head(src[2][0], {LN}) and clo[0] == 'closure' and clo[1] in lib.fns:
                         cf = lib.fns[clo[1]]
@@ -190,8 +219,7 @@ def seek_rules(ctx, R41, R42, R34, R36, want_c03=True, want_c04=True, R35s=None)
                     pass
             # the inclusive flag: a bool derived from the variant of the bound
             flag = [d for d in p.decisions if d[0] > it_end and f.blocks[d[1]]['term']['k'] == 'switch' and not any(is_call(x, 'is_empty') or is_call(x, '::next') for x in walk(d[2]))]
-            empty_stack = [d for d in p.decisions if d[0] > it_end and any(is_call(x, '::is_empty') for x in walk(d[2]))]
-            if empty_stack and empty_stack[-1][3] == 1:
+            if stack_known_empty(f, p, it_end):
                 continue      # nothing was pushed: bound is the empty path (handled by the early return) or loop never ran
             variant = [d for d in p.decisions if d[2][0] == 'discr' and d[2][1][0] == 'param' and d[2][1][2] == 2]
             vname = None
@@ -241,8 +269,7 @@ def seek_rules(ctx, R41, R42, R34, R36, want_c03=True, want_c04=True, R35s=None)
         if p.end == 'cut':
             ctx.check(RB, ds - di == 0, 'seek-balance-step', 'one step of following the bound changes |stack| by %d and |key buffer| by %d: every followed byte needs exactly one frame' % (ds, di), fn=f)
         elif p.end == 'return':
-            empty_stack = [d for d in p.decisions if any(is_call(x, '::is_empty') and arg_is_stack(f, x) for x in walk(d[2]))]
-            if empty_stack and empty_stack[-1][3] == 1:
+            if stack_known_empty(f, p):
                 continue
             ctx.check(RB, ds - di == 1, 'seek-balance-exit', 'the seek returns with |stack| - |key buffer| changed by %d on this path (frames %+d, key bytes %+d): the DFS needs exactly one more frame than key bytes' % (ds - di, ds, di), fn=f,
                       detail=[fmt(d[2])[:80] + '=' + str(d[3]) for d in p.decisions][-5:])
